@@ -20,7 +20,7 @@ def main():
         del junk[::2]
     from synverif import env  # noqa: F401
     from synverif.c19_prog import run_program
-    d, fixed = run_program(req["prog"], req["seed"])
+    d, fixed = run_program(req["prog"], req["seed"], poison=float(req.get("junk", 0)) + 0.5)
     print("DIGEST", d)
     return 0
 
